@@ -770,3 +770,6 @@ add("C14", "manifest-read-with-error-handler", REQW,
 add("C18", "call-target-rebuilt-from-original-node", "core_codemods/secure_random.py",
     [("        return self.update_call_target(updated_node, \"secrets.SystemRandom()\")", "        return self.update_call_target(original_node, \"secrets.SystemRandom()\")")],
     "fire", "R-LOST-UPDATE", "SecureRandomTransformer")
+add("C16", "options-dict-rebuild-skips-unpacked-entries", "core_codemods/jwt_decode_verify.py",
+    [("        for element in opts_dict.elements:\n            if is_verify_keyword(element):", "        for element in opts_dict.elements:\n            if isinstance(element, cst.StarredDictElement):\n                continue\n            if is_verify_keyword(element):")],
+    "fire", "R-REBUILD-KEEPS-ALL", "_replace_opts_dict")
